@@ -137,6 +137,7 @@ def measure (n : Nat) (s : St α β) : Nat :=
     number of concurrent applications is exactly the worker count; the harness prints `maxc=ok` when it is within the
     bound and `maxc=<k>` when it is not;
     `hold=2`: completion order forced to be descending by value (only generated when all n applications can be in flight);
+    `hold=3`: `f` does nothing but count (long lists);
     `hold=0`: data-dependent sleeps, the harness prints `maxc=ok` when its gauge never exceeded the bound. -/
 
 def elem (seed i : Nat) : Nat := (i * 31 + seed * 7 + (i * i) % 5) % 97
@@ -166,7 +167,7 @@ def parseCaseToks (toks : List String) : Option Case :=
     | some n, some p, some m, some t, some h, some s =>
       match n.toNat?, (if p = "nil" then some none else p.toInt?.map some), s.toNat? with
       | some n, some p, some s =>
-        if (m = "o" ∨ m = "r") ∧ (t = "i" ∨ t = "s") ∧ (h = "0" ∨ h = "1" ∨ h = "2") then
+        if (m = "o" ∨ m = "r") ∧ (t = "i" ∨ t = "s") ∧ (h = "0" ∨ h = "1" ∨ h = "2" ∨ h = "3") then
           some ⟨n, p, m = "r", t = "s", h = "1", s, nest⟩
         else none
       | _, _, _ => none
